@@ -1,5 +1,670 @@
 /-
-C20 — property theorems (stub; nothing proved yet).
+C20 — saved files and surrogates reproduce what they were made from.
+
+Theorems about `KawinV.SaveLoad` (hand model of the npz / toDict / fromDict / JSON layers) instantiated with
+the tables of `KawinV.Gen.C20` which tools/corr/C20.py extracts from the running kawin code on every run.
+Facts about the tables are closed by `decide`, so they are re-decided whenever the code changes.
 -/
+import KawinV.Model.SaveLoad
+import KawinV.Gen.C20Tables
+import Mathlib.Data.List.Nodup
+import Mathlib.Data.List.Basic
+
+set_option linter.unusedSectionVars false
+set_option linter.unusedVariables false
+set_option linter.unusedSimpArgs false
+
 namespace KawinV.Props.C20
+open KawinV.SaveLoad
+open KawinV.Gen.C20
+
+variable {α : Type}
+
+/-! ### dictionaries -/
+
+theorem get?_none_of_no_key (d : Dict α) (k : String) (h : ∀ e ∈ d, e.1 ≠ k) : Dict.get? d k = none := by
+  induction d with
+  | nil => rfl
+  | cons x r ih =>
+    obtain ⟨k', v⟩ := x
+    have h1 : k' ≠ k := h (k', v) (by simp)
+    simp only [Dict.get?, h1, if_false]
+    exact ih (fun e he => h e (List.mem_cons_of_mem _ he))
+
+theorem get?_mem (d : Dict α) (k : String) (v : Val α) (h : Dict.get? d k = some v) : (k, v) ∈ d := by
+  induction d with
+  | nil => simp [Dict.get?] at h
+  | cons x r ih =>
+    obtain ⟨k', v'⟩ := x
+    simp only [Dict.get?] at h
+    split at h
+    · next hk => cases h; subst hk; simp
+    · exact List.mem_cons_of_mem _ (ih h)
+
+theorem writeStep_get?_ne (s : State α) (d : Dict α) (e : Entry) (k : String) (h : e.key ≠ k) :
+    Dict.get? (writeStep s d e) k = Dict.get? d k := by
+  unfold writeStep
+  split
+  · rfl
+  · simp [Dict.get?, h]
+
+theorem writeStep_get?_eq (s : State α) (d : Dict α) (e : Entry) :
+    Dict.get? (writeStep s d e) e.key = if skipped s e then Dict.get? d e.key else some (s e.slot) := by
+  unfold writeStep
+  split
+  · rfl
+  · simp [Dict.get?]
+
+theorem foldl_write_other (s : State α) (W : List Entry) (acc : Dict α) (k : String)
+    (h : ∀ e ∈ W, e.key ≠ k) : Dict.get? (W.foldl (writeStep s) acc) k = Dict.get? acc k := by
+  induction W generalizing acc with
+  | nil => rfl
+  | cons e W ih =>
+    simp only [List.foldl_cons]
+    rw [ih _ (fun e' he' => h e' (List.mem_cons_of_mem _ he'))]
+    exact writeStep_get?_ne s acc e k (h e (by simp))
+
+/-- what `toDict` leaves under the key of one of its lines, when no two lines use the same key -/
+theorem foldl_write_get (s : State α) (W : List Entry) (hnd : (W.map Entry.key).Nodup) (acc : Dict α)
+    (w : Entry) (hw : w ∈ W) :
+    Dict.get? (W.foldl (writeStep s) acc) w.key
+      = if skipped s w then Dict.get? acc w.key else some (s w.slot) := by
+  induction W generalizing acc with
+  | nil => simp at hw
+  | cons e W ih =>
+    simp only [List.map_cons, List.nodup_cons] at hnd
+    simp only [List.foldl_cons]
+    rcases List.mem_cons.mp hw with rfl | hw'
+    · rw [foldl_write_other s W _ w.key]
+      · exact writeStep_get?_eq s acc w
+      · intro e' he' heq
+        exact hnd.1 (heq ▸ List.mem_map_of_mem he')
+    · rw [ih hnd.2 _ hw']
+      have hne : e.key ≠ w.key := fun heq => hnd.1 (heq ▸ List.mem_map_of_mem hw')
+      rw [writeStep_get?_ne s acc e w.key hne]
+
+theorem foldl_write_mem (s : State α) (W : List Entry) (acc : Dict α) (x : String × Val α)
+    (hx : x ∈ W.foldl (writeStep s) acc) :
+    x ∈ acc ∨ ∃ w ∈ W, skipped s w = false ∧ x = (w.key, s w.slot) := by
+  induction W generalizing acc with
+  | nil => exact Or.inl hx
+  | cons e W ih =>
+    simp only [List.foldl_cons] at hx
+    rcases ih _ hx with h | ⟨w, hw, h1, h2⟩
+    · unfold writeStep at h
+      split at h
+      · exact Or.inl h
+      · next hs =>
+        rcases List.mem_cons.mp h with h | h
+        · exact Or.inr ⟨e, by simp, by simpa using hs, h⟩
+        · exact Or.inl h
+    · exact Or.inr ⟨w, List.mem_cons_of_mem _ hw, h1, h2⟩
+
+/-- the archive layer accepts a dictionary without `None` -/
+theorem npzLoad_ok (f : Dict α) (h : ∀ x ∈ f, x.2.isNone = false) : npzLoad f = .ok f := by
+  unfold npzLoad
+  have : f.all (fun e => match Dict.get? f e.1 with | some v => !v.isNone | none => true) = true := by
+    rw [List.all_eq_true]
+    intro e _
+    cases hg : Dict.get? f e.1 with
+    | none => rfl
+    | some v => simpa using h _ (get?_mem f e.1 v hg)
+  simp [this]
+
+/-- … and refuses one that holds a `None` (the `np.load` error "Object arrays cannot be loaded") -/
+theorem npzLoad_none (f : Dict α) (k : String) (hk : Dict.get? f k = some Val.none) :
+    npzLoad f = .error .objectArray := by
+  unfold npzLoad
+  have hm := get?_mem f k _ hk
+  have : f.all (fun e => match Dict.get? f e.1 with | some v => !v.isNone | none => true) = false := by
+    rw [List.all_eq_false]
+    exact ⟨(k, Val.none), hm, by simp [hk, Val.isNone]⟩
+  simp [this]
+
+/-! ### fromDict -/
+
+theorem fromDict_ok (R : List Entry) (d : Dict α) (s0 : State α)
+    (h : ∀ e ∈ R, (Dict.get? d e.key).isSome = true ∨ e.opt = true) :
+    fromDict R d s0 = .ok (applyReads R d s0) := by
+  unfold fromDict applyReads
+  induction R generalizing s0 with
+  | nil => rfl
+  | cons e R ih =>
+    simp only [List.foldlM_cons, List.foldl_cons]
+    have he := h e (by simp)
+    have hstep : readStep d s0 e
+        = .ok (s0.set e.slot (match Dict.get? d e.key with | some v => v | none => .none)) := by
+      unfold readStep
+      cases hg : Dict.get? d e.key with
+      | some v => rfl
+      | none =>
+        rcases he with he | he
+        · simp [hg] at he
+        · simp [he]
+    rw [hstep]
+    exact ih _ (fun e' he' => h e' (List.mem_cons_of_mem _ he'))
+
+/-- a `KeyError` if a mandatory key is missing (first such line) -/
+theorem fromDict_keyError (e : Entry) (R : List Entry) (d : Dict α) (s0 : State α)
+    (hm : Dict.get? d e.key = none) (ho : e.opt = false) :
+    fromDict (e :: R) d s0 = .error (.keyError e.key) := by
+  unfold fromDict
+  simp only [List.foldlM_cons]
+  have : readStep d s0 e = .error (.keyError e.key) := by unfold readStep; simp [hm, ho]
+  rw [this]; rfl
+
+theorem applyReads_untouched (R : List Entry) (d : Dict α) (s0 : State α) (x : String)
+    (h : ∀ e ∈ R, e.slot ≠ x) : applyReads R d s0 x = s0 x := by
+  unfold applyReads
+  induction R generalizing s0 with
+  | nil => rfl
+  | cons e R ih =>
+    simp only [List.foldl_cons]
+    rw [ih _ (fun e' he' => h e' (List.mem_cons_of_mem _ he'))]
+    have : x ≠ e.slot := fun hx => h e (by simp) hx.symm
+    simp [State.set, this]
+
+theorem applyReads_value (R : List Entry) (d : Dict α) (s0 : State α) (x : String) (v : Val α)
+    (hex : ∃ e ∈ R, e.slot = x)
+    (hall : ∀ e ∈ R, e.slot = x → (match Dict.get? d e.key with | some v => v | none => Val.none) = v) :
+    applyReads R d s0 x = v := by
+  induction R generalizing s0 with
+  | nil => obtain ⟨e, he, _⟩ := hex; simp at he
+  | cons e R ih =>
+    by_cases hlater : ∃ e' ∈ R, e'.slot = x
+    · have := ih (s0.set e.slot (match Dict.get? d e.key with | some v => v | none => .none)) hlater
+        (fun e' he' => hall e' (List.mem_cons_of_mem _ he'))
+      simpa [applyReads] using this
+    · have hno : ∀ e' ∈ R, e'.slot ≠ x := fun e' he' hx => hlater ⟨e', he', hx⟩
+      have hhere : e.slot = x := by
+        obtain ⟨e', he', hx⟩ := hex
+        rcases List.mem_cons.mp he' with rfl | he''
+        · exact hx
+        · exact absurd hx (hno e' he'')
+      have h1 := applyReads_untouched R d
+        (s0.set e.slot (match Dict.get? d e.key with | some v => v | none => .none)) x hno
+      have h2 := hall e (by simp) hhere
+      simp only [applyReads, List.foldl_cons] at h1 ⊢
+      rw [h1]
+      simp [State.set, hhere, h2]
+
+/-! ### the round trip, for any pair of tables -/
+
+theorem covers_iff (W : List Entry) (e : Entry) :
+    covers W e = true ↔ ∃ w ∈ W, w.key = e.key ∧ w.slot = e.slot ∧ (w.opt = true → e.opt = true) := by
+  unfold covers
+  rw [List.any_eq_true]
+  constructor
+  · rintro ⟨w, hw, h⟩
+    simp only [Bool.and_eq_true, beq_iff_eq, Bool.or_eq_true, Bool.not_eq_true'] at h
+    refine ⟨w, hw, h.1.1, h.1.2, ?_⟩
+    intro ho
+    rcases h.2 with h2 | h2
+    · rw [ho] at h2; cases h2
+    · exact h2
+  · rintro ⟨w, hw, h1, h2, h3⟩
+    refine ⟨w, hw, ?_⟩
+    simp only [Bool.and_eq_true, beq_iff_eq, Bool.or_eq_true, Bool.not_eq_true']
+    refine ⟨⟨h1, h2⟩, ?_⟩
+    cases ho : w.opt with
+    | false => exact Or.inl rfl
+    | true => exact Or.inr (h3 ho)
+
+theorem isNone_eq_none (v : Val α) (h : v.isNone = true) : v = Val.none := by
+  cases v with
+  | none => rfl
+  | arr _ _ => simp [Val.isNone] at h
+
+/-- **round trip**.  For ANY pair of tables in which no two `toDict` lines share a key and every `fromDict`
+line is covered by a `toDict` line (same key, same slot, a skippable write only read tolerantly), and ANY
+state `s` whose mandatory slots hold arrays (any shapes, any contents), loading the saved file into ANY
+model state `s0` succeeds; afterwards every slot named by a `fromDict` line holds exactly what it held in
+`s` — including `None` in an optional slot — and every other slot is what it was in `s0`. -/
+theorem roundtrip (sp : Spec) (hnd : (sp.writes.map Entry.key).Nodup)
+    (hcov : ∀ e ∈ sp.reads, covers sp.writes e = true) (s s0 : State α)
+    (hnn : ∀ w ∈ sp.writes, w.opt = false → (s w.slot).isNone = false) :
+    ∃ s', load sp (save sp s) s0 = .ok s' ∧ (∀ e ∈ sp.reads, s' e.slot = s e.slot) ∧
+      (∀ x, (∀ e ∈ sp.reads, e.slot ≠ x) → s' x = s0 x) := by
+  -- 1. the archive holds no None
+  have hfile : ∀ x ∈ toDict sp.writes s, x.2.isNone = false := by
+    intro x hx
+    rcases foldl_write_mem s sp.writes [] x hx with h | ⟨w, hw, hs, rfl⟩
+    · simp at h
+    · cases ho : w.opt with
+      | false => exact hnn w hw ho
+      | true =>
+        unfold skipped at hs
+        rw [ho] at hs
+        simpa using hs
+  have hload : npzLoad (save sp s) = .ok (toDict sp.writes s) := npzLoad_ok _ hfile
+  -- 2. what each read line finds
+  have hfind : ∀ e ∈ sp.reads,
+      ((Dict.get? (toDict sp.writes s) e.key).isSome = true ∨ e.opt = true) ∧
+      (match Dict.get? (toDict sp.writes s) e.key with | some v => v | none => Val.none) = s e.slot := by
+    intro e he
+    obtain ⟨w, hw, hk, hsl, hopt⟩ := (covers_iff _ _).mp (hcov e he)
+    have hg := foldl_write_get s sp.writes hnd [] w hw
+    rw [hk] at hg
+    change Dict.get? (toDict sp.writes s) e.key = _ at hg
+    rw [hg]
+    cases hsk : skipped s w with
+    | false => simp [hsl]
+    | true =>
+      unfold skipped at hsk
+      simp only [Bool.and_eq_true] at hsk
+      have := isNone_eq_none _ hsk.2
+      simp [Dict.get?, hopt hsk.1, ← hsl, this]
+  refine ⟨applyReads sp.reads (toDict sp.writes s) s0, ?_, ?_, ?_⟩
+  · unfold load
+    rw [hload]
+    exact fromDict_ok _ _ _ (fun e he => (hfind e he).1)
+  · intro e he
+    exact applyReads_value _ _ _ _ _ ⟨e, he, rfl⟩
+      (fun e' he' hs' => by rw [(hfind e' he').2, hs'])
+  · intro x hx
+    exact applyReads_untouched _ _ _ _ hx
+
+/-! ### per-phase tables: keys of different phases never collide -/
+
+theorem append_right_inj_str (a b ph : String) (h : a ++ ph = b ++ ph) : a = b := by
+  have := congrArg String.toList h
+  simp only [String.toList_append] at this
+  exact String.toList_inj.mp (List.append_cancel_right this)
+
+theorem prefix_of_append_eq (a b x y : String) (h : a ++ x = b ++ y) :
+    a.toList <+: b.toList ∨ b.toList <+: a.toList := by
+  have := congrArg String.toList h
+  simp only [String.toList_append] at this
+  rcases List.append_eq_append_iff.mp this with ⟨as, h1, _⟩ | ⟨bs, h1, _⟩
+  · exact Or.inl ⟨as, h1.symm⟩
+  · exact Or.inr ⟨bs, h1.symm⟩
+
+theorem prefixFree_spec (G P : List Entry) (h : prefixFree G P = true) :
+    (∀ p ∈ P, ∀ q ∈ P, p.key ≠ q.key → ¬ p.key.toList <+: q.key.toList) ∧
+    (∀ p ∈ P, ∀ g ∈ G, ¬ p.key.toList <+: g.key.toList) := by
+  unfold prefixFree at h
+  simp only [Bool.and_eq_true, List.all_eq_true, Bool.or_eq_true, beq_iff_eq, Bool.not_eq_true',
+    ← Bool.not_eq_true, List.isPrefixOf_iff_prefix] at h
+  refine ⟨fun p hp q hq hne => ?_, fun p hp g hg => h.2 p hp g hg⟩
+  rcases h.1 p hp q hq with h1 | h1
+  · exact absurd h1 hne
+  · exact h1
+
+theorem expand_keys (G P : List Entry) (phases : List String) :
+    (expand G P phases).map Entry.key
+      = G.map Entry.key ++ phases.flatMap (fun ph => (P.map Entry.key).map (· ++ ph)) := by
+  unfold expand
+  simp only [List.map_append, List.map_flatMap, List.map_map]
+  rfl
+
+/-- keys built as `prefix ++ phase name` are pairwise distinct for distinct phase names, whatever the names -/
+theorem expand_keys_nodup (G P : List Entry) (phases : List String)
+    (hG : (G.map Entry.key).Nodup) (hP : (P.map Entry.key).Nodup) (hpf : prefixFree G P = true)
+    (hph : phases.Nodup) : ((expand G P phases).map Entry.key).Nodup := by
+  obtain ⟨hpp, hpg⟩ := prefixFree_spec G P hpf
+  rw [expand_keys, List.nodup_append]
+  refine ⟨hG, ?_, ?_⟩
+  · rw [List.nodup_flatMap]
+    refine ⟨fun ph _ => hP.map (fun a b h => append_right_inj_str a b ph h), ?_⟩
+    refine List.Pairwise.imp_of_mem ?_ hph
+    intro ph ph' _ _ hne
+    change List.Disjoint _ _
+    intro x hx hx'
+    simp only [List.mem_map] at hx hx'
+    obtain ⟨_, ⟨p, hp, rfl⟩, rfl⟩ := hx
+    obtain ⟨_, ⟨q, hq, rfl⟩, hq'⟩ := hx'
+    by_cases hk : p.key = q.key
+    · rw [hk] at hq'
+      have := congrArg String.toList hq'
+      simp only [String.toList_append] at this
+      exact hne (String.toList_inj.mp (List.append_cancel_left this)).symm
+    · rcases prefix_of_append_eq _ _ _ _ hq' with h | h
+      · exact hpp q hq p hp (Ne.symm hk) h
+      · exact hpp p hp q hq hk h
+  · intro a ha b hb hab
+    subst hab
+    simp only [List.mem_map] at ha
+    obtain ⟨g, hg, rfl⟩ := ha
+    simp only [List.mem_flatMap, List.mem_map] at hb
+    obtain ⟨ph, _, _, ⟨p, hp, rfl⟩, hq⟩ := hb
+    have : p.key.toList <+: g.key.toList := by
+      refine ⟨ph.toList, ?_⟩
+      rw [← String.toList_append]
+      exact congrArg String.toList hq
+    exact hpg p hp g hg this
+
+theorem mem_expand (G P : List Entry) (phases : List String) (e : Entry) :
+    e ∈ expand G P phases ↔
+      e ∈ G ∨ ∃ ph ∈ phases, ∃ p ∈ P, e = (p.key ++ ph, p.slot ++ "@" ++ ph, p.opt) := by
+  unfold expand
+  simp only [List.mem_append, List.mem_flatMap, List.mem_map]
+  constructor
+  · rintro (h | ⟨ph, hph, p, hp, rfl⟩)
+    · exact Or.inl h
+    · exact Or.inr ⟨ph, hph, p, hp, rfl⟩
+  · rintro (h | ⟨ph, hph, p, hp, rfl⟩)
+    · exact Or.inl h
+    · exact Or.inr ⟨ph, hph, p, hp, rfl⟩
+
+/-- coverage of the templates gives coverage of the tables of every model -/
+theorem covers_expand (GW PW GR PR : List Entry) (phases : List String)
+    (hG : ∀ e ∈ GR, covers GW e = true) (hP : ∀ e ∈ PR, covers PW e = true) :
+    ∀ e ∈ expand GR PR phases, covers (expand GW PW phases) e = true := by
+  intro e he
+  rw [covers_iff]
+  rcases (mem_expand _ _ _ _).mp he with h | ⟨ph, hph, p, hp, rfl⟩
+  · obtain ⟨w, hw, h1, h2, h3⟩ := (covers_iff _ _).mp (hG e h)
+    exact ⟨w, (mem_expand _ _ _ _).mpr (Or.inl hw), h1, h2, h3⟩
+  · obtain ⟨w, hw, h1, h2, h3⟩ := (covers_iff _ _).mp (hP p hp)
+    refine ⟨(w.key ++ ph, w.slot ++ "@" ++ ph, w.opt), (mem_expand _ _ _ _).mpr (Or.inr ⟨ph, hph, w, hw, rfl⟩), ?_, ?_, h3⟩
+    · change w.key ++ ph = p.key ++ ph; rw [h1]
+    · change w.slot ++ "@" ++ ph = p.slot ++ "@" ++ ph; rw [h2]
+
+/-! ### the precipitation model (tables generated from KWNBase / KWNEuler / PrecipitationParameters) -/
+
+/-- `toDict` / `fromDict` of a `PrecipitateModel` with the given phase names -/
+def precipSpec (phases : List String) : Spec :=
+  { writes := expand precipGlobalW precipPhaseW phases, reads := expand precipGlobalR precipPhaseR phases }
+
+/-- the sixteen recorded histories the property names -/
+def histories : List String :=
+  ["time", "temperature", "composition", "xEqAlpha", "xEqBeta", "drivingForce", "impingement", "Gcrit",
+   "Rcrit", "nucRate", "precipitateDensity", "Rnuc", "Ravg", "ARavg", "volFrac", "fconc"]
+
+/-- per phase: PBM min/max/bins, the size distribution, class boundaries, class sizes, aspect-ratio table -/
+def phaseObservables : List String :=
+  ["PBM.(min,max,bins)", "PBM.PSD", "PBM.PSDbounds", "PBM.PSDsize", "eqAspectRatio"]
+
+/-- per phase: the recorded size-distribution history of `setPSDrecording` -/
+def psdRecording : List String := ["PBM._recordedTime", "PBM._recordedBins", "PBM._recordedPSD"]
+
+def precipObservables (phases : List String) : List String :=
+  attributes.map ("pData." ++ ·) ++ phases.flatMap (fun ph => phaseObservables.map (· ++ "@" ++ ph))
+
+/-- the generated ATTRIBUTES are the sixteen histories -/
+theorem attributes_are_the_histories : attributes = histories := by decide
+
+/-- **key coverage, precipitation**: every key `fromDict` reads is written by `toDict`, from the slot it is
+read into (global lines and per-phase lines) -/
+theorem precip_reads_covered :
+    (∀ e ∈ precipGlobalR, covers precipGlobalW e = true) ∧ (∀ e ∈ precipPhaseR, covers precipPhaseW e = true) := by
+  decide
+
+/-- no two lines share a key; no per-phase key prefix is a prefix of another key -/
+theorem precip_keys_ok :
+    (precipGlobalW.map Entry.key).Nodup ∧ (precipPhaseW.map Entry.key).Nodup ∧
+      prefixFree precipGlobalW precipPhaseW = true := by
+  decide
+
+/-- every history of ATTRIBUTES is written and read back into its own slot -/
+theorem precip_histories_saved :
+    ∀ a ∈ attributes, ("pData." ++ a) ∈ precipGlobalW.map Entry.slot ∧ ("pData." ++ a) ∈ precipGlobalR.map Entry.slot := by
+  decide
+
+/-- every per-phase observable is written and read back into its own slot -/
+theorem precip_phase_observables_saved :
+    ∀ o ∈ phaseObservables, o ∈ precipPhaseW.map Entry.slot ∧ o ∈ precipPhaseR.map Entry.slot := by
+  decide
+
+/-- all lines are mandatory and every line lands in a known slot -/
+theorem precip_lines_known :
+    (∀ e ∈ precipGlobalW ++ precipPhaseW ++ precipGlobalR ++ precipPhaseR, e.opt = false ∧ e.slot ≠ "?") := by
+  decide
+
+/-- the per-phase templates are what was recorded on the two-phase model -/
+theorem precip_templates_match_recording :
+    expand precipGlobalW precipPhaseW precipRecordedPhases = precipRecordedW ∧
+    expand precipGlobalR precipPhaseR precipRecordedPhases = precipRecordedR := by
+  decide
+
+theorem precip_observable_read (phases : List String) (o : String) (ho : o ∈ precipObservables phases) :
+    ∃ e ∈ (precipSpec phases).reads, e.slot = o := by
+  unfold precipObservables at ho
+  rcases List.mem_append.mp ho with h | h
+  · obtain ⟨a, ha, rfl⟩ := List.mem_map.mp h
+    obtain ⟨e, he, hs⟩ := List.mem_map.mp (precip_histories_saved a ha).2
+    exact ⟨e, (mem_expand _ _ _ _).mpr (Or.inl he), hs⟩
+  · simp only [List.mem_flatMap, List.mem_map] at h
+    obtain ⟨ph, hph, o', ho', rfl⟩ := h
+    obtain ⟨p, hp, hs⟩ := List.mem_map.mp (precip_phase_observables_saved o' ho').2
+    refine ⟨(p.key ++ ph, p.slot ++ "@" ++ ph, p.opt), (mem_expand _ _ _ _).mpr (Or.inr ⟨ph, hph, p, hp, rfl⟩), ?_⟩
+    change p.slot ++ "@" ++ ph = o' ++ "@" ++ ph
+    rw [hs]
+
+/-- **round trip, precipitation model**: for every list of distinct phase names (any number of phases),
+every state whose saved slots hold arrays (any contents, any shapes, any number of recorded steps) and every
+freshly constructed model `s0`:  `load (save s)` succeeds and every observable — the sixteen histories and,
+per phase, PBM data, size distribution, boundaries, sizes and aspect-ratio table — is exactly what was saved. -/
+theorem precip_roundtrip (phases : List String) (hph : phases.Nodup) (s s0 : State α)
+    (hnn : ∀ w ∈ (precipSpec phases).writes, (s w.slot).isNone = false) :
+    ∃ s', load (precipSpec phases) (save (precipSpec phases) s) s0 = .ok s' ∧
+      ∀ o ∈ precipObservables phases, s' o = s o := by
+  obtain ⟨hg, hp, hpf⟩ := precip_keys_ok
+  obtain ⟨s', h1, h2, _⟩ := roundtrip (precipSpec phases)
+    (expand_keys_nodup _ _ _ hg hp hpf hph)
+    (covers_expand _ _ _ _ _ precip_reads_covered.1 precip_reads_covered.2) s s0 (fun w hw _ => hnn w hw)
+  refine ⟨s', h1, fun o ho => ?_⟩
+  obtain ⟨e, he, rfl⟩ := precip_observable_read phases o ho
+  exact h2 e he
+
+/-- **finding F-C20-psdrec, on the generated tables**: no `toDict` / `fromDict` line touches the recorded
+size-distribution history -/
+theorem psd_recording_not_in_tables :
+    ∀ o ∈ psdRecording, o ∉ precipPhaseW.map Entry.slot ∧ o ∉ precipPhaseR.map Entry.slot ∧
+      o ∉ precipGlobalW.map Entry.slot ∧ o ∉ precipGlobalR.map Entry.slot := by
+  decide
+
+theorem at_injective (a b ph : String) (h : a ++ "@" ++ ph = b ++ "@" ++ ph) : a = b := by
+  have := append_right_inj_str _ _ _ h
+  exact append_right_inj_str _ _ _ this
+
+/-- … hence a reloaded model does NOT reproduce the recorded size-distribution history: after
+`load (save s)` these slots hold what the freshly constructed model held (`None`), whatever was recorded.
+The excluded observables are visible here; `precip_roundtrip` is the partial theorem without them. -/
+theorem psd_recording_lost (ph : String) (s s0 : State α)
+    (hnn : ∀ w ∈ (precipSpec [ph]).writes, (s w.slot).isNone = false) :
+    ∃ s', load (precipSpec [ph]) (save (precipSpec [ph]) s) s0 = .ok s' ∧
+      ∀ o ∈ psdRecording, s' (o ++ "@" ++ ph) = s0 (o ++ "@" ++ ph) := by
+  obtain ⟨hg, hp, hpf⟩ := precip_keys_ok
+  obtain ⟨s', h1, _, h3⟩ := roundtrip (precipSpec [ph])
+    (expand_keys_nodup _ _ _ hg hp hpf (by simp))
+    (covers_expand _ _ _ _ _ precip_reads_covered.1 precip_reads_covered.2) s s0 (fun w hw _ => hnn w hw)
+  refine ⟨s', h1, fun o ho => h3 _ ?_⟩
+  intro e he hs
+  rcases (mem_expand _ _ _ _).mp he with h | ⟨ph', hph', p, hp', rfl⟩
+  · -- a global slot never carries a phase suffix: all of them are in the generated list, decide
+    have hmem : e.slot ∈ precipGlobalR.map Entry.slot := List.mem_map_of_mem h
+    have hall : ∀ g ∈ precipGlobalR.map Entry.slot, ¬ "@".toList <:+: g.toList := by decide
+    apply hall _ hmem
+    rw [hs]
+    exact ⟨o.toList, ph.toList, by simp [String.toList_append]⟩
+  · simp only [List.mem_singleton] at hph'
+    subst hph'
+    have : p.slot = o := at_injective _ _ _ hs
+    exact (psd_recording_not_in_tables o ho).2.1 (this ▸ List.mem_map_of_mem hp')
+
+/-! ### the diffusion model (tables generated from Diffusion.py) -/
+
+def diffSpec : Spec := { writes := diffW, reads := diffR }
+
+def diffObservables : List String := ["t", "x", "_recordedX", "_recordedTime"]
+
+/-- **key coverage, diffusion**: every key read is written from the same slot; keys distinct; current time,
+current profile and the recorded arrays are all written and read -/
+theorem diff_tables_ok :
+    (∀ e ∈ diffR, covers diffW e = true) ∧ (diffW.map Entry.key).Nodup ∧
+    (∀ o ∈ diffObservables, o ∈ diffW.map Entry.slot ∧ o ∈ diffR.map Entry.slot) := by
+  decide
+
+/-- the lines for the recorded arrays (which are `None` when recording is off) can be skipped; the current
+time and profile are always saved -/
+theorem diff_recording_lines_optional :
+    ∀ w ∈ diffW, w.opt = false → w.slot = "t" ∨ w.slot = "x" := by
+  decide
+
+/-- **round trip, diffusion model, whatever the recording options**: the current time and profile are always
+arrays; the recorded arrays may be arrays (recording on) or `None` (recording off, or data removed) — in
+every case the saved file loads and all four observables come back exactly, `None` as `None`. -/
+theorem diff_roundtrip_any_recording (s s0 : State α)
+    (ht : (s "t").isNone = false) (hx : (s "x").isNone = false) :
+    ∃ s', load diffSpec (save diffSpec s) s0 = .ok s' ∧ ∀ o ∈ diffObservables, s' o = s o := by
+  obtain ⟨hc, hk, hobs⟩ := diff_tables_ok
+  obtain ⟨s', h1, h2, _⟩ := roundtrip diffSpec hk hc s s0 (by
+    intro w hw ho
+    rcases diff_recording_lines_optional w hw ho with h | h <;> rw [h] <;> assumption)
+  refine ⟨s', h1, fun o ho => ?_⟩
+  obtain ⟨e, he, hs⟩ := List.mem_map.mp (hobs o ho).2
+  exact hs ▸ h2 e he
+
+/-- the table of the code BEFORE the repair recorded in known_findings.txt (D-C20-none): all four lines
+mandatory -/
+def diffUnrepaired : Spec :=
+  { writes := [("finalTime", "t", false), ("finalX", "x", false), ("recordX", "_recordedX", false),
+               ("recordTime", "_recordedTime", false)],
+    reads := [("finalTime", "t", false), ("finalX", "x", false), ("recordX", "_recordedX", false),
+              ("recordTime", "_recordedTime", false)] }
+
+/-- a model constructed with `record=False` -/
+def recordOff : State Nat := fun slot =>
+  if slot = "t" then .arr [] [7200] else if slot = "x" then .arr [1, 3] [1, 2, 3] else .none
+
+/-- … with that table a model with recording off saves `None` and the file cannot be loaded -/
+theorem diff_unrepaired_fails (s0 : State Nat) :
+    load diffUnrepaired (save diffUnrepaired recordOff) s0 = .error .objectArray := by
+  unfold load
+  have : npzLoad (save diffUnrepaired recordOff) = .error .objectArray :=
+    npzLoad_none _ "recordX" (by decide)
+  rw [this]; rfl
+
+/-! ### untrained surrogates -/
+
+/-- **untrained pass-through**: every public getter of an untrained surrogate has an entry, calls the
+thermodynamics method of the SAME name, exactly once, handing its arguments and the result through unchanged -/
+theorem binary_untrained_same_quantity :
+    (∀ p ∈ binaryFallthrough, p.1 = p.2) ∧ (∀ g ∈ binaryGetters, g ∈ binaryFallthrough.map (·.1)) ∧
+    (∀ p ∈ binaryPassThrough, p.2 = true) ∧ (∀ g ∈ binaryGetters, g ∈ binaryPassThrough.map (·.1)) := by
+  decide
+
+theorem multi_untrained_same_quantity :
+    (∀ p ∈ multiFallthrough, p.1 = p.2) ∧ (∀ g ∈ multiGetters, g ∈ multiFallthrough.map (·.1)) ∧
+    (∀ p ∈ multiPassThrough, p.2 = true) ∧ (∀ g ∈ multiGetters, g ∈ multiPassThrough.map (·.1)) := by
+  decide
+
+/-- the quantities the property talks about all have a getter -/
+theorem surrogate_getters_present :
+    (∀ g ∈ ["getDrivingForce", "getInterdiffusivity", "getTracerDiffusivity", "getInterfacialComposition"],
+        g ∈ binaryGetters) ∧
+    (∀ g ∈ ["getDrivingForce", "getInterdiffusivity", "getTracerDiffusivity", "curvatureFactor",
+            "getGrowthAndInterfacialComposition", "impingementFactor"], g ∈ multiGetters) := by
+  decide
+
+/-! ### JSON layer -/
+
+theorem chunks_length (m n : Nat) (d : List α) : (chunks m n d).length = n := by
+  induction n generalizing d with
+  | zero => rfl
+  | succ n ih => simp [chunks, ih]
+
+theorem chunks_flatten (m n : Nat) (d : List α) : (chunks m n d).flatten = d.take (n * m) := by
+  induction n generalizing d with
+  | zero => simp [chunks]
+  | succ n ih =>
+    simp only [chunks, List.flatten_cons, ih]
+    rw [Nat.succ_mul, Nat.add_comm, List.take_add]
+
+theorem chunks_mem_length (m n : Nat) (d : List α) (h : d.length = n * m) :
+    ∀ c ∈ chunks m n d, c.length = m := by
+  induction n generalizing d with
+  | zero => simp [chunks]
+  | succ n ih =>
+    intro c hc
+    simp only [chunks, List.mem_cons] at hc
+    have hlen : m ≤ d.length := by rw [h, Nat.succ_mul]; exact Nat.le_add_left _ _
+    rcases hc with rfl | hc
+    · simp [List.length_take, hlen]
+    · exact ih (d.drop m) (by simp [List.length_drop, h, Nat.succ_mul]) c hc
+
+theorem flatten_map_tolist [Inhabited α] (sh : List Nat)
+    (ih : ∀ d : List α, d.length = prod sh → flatten sh.length (tolist sh d) = d)
+    (L : List (List α)) (hL : ∀ c ∈ L, c.length = prod sh) :
+    List.flatMap (flatten sh.length) (L.map (tolist sh)) = L.flatten := by
+  induction L with
+  | nil => rfl
+  | cons c L ihL =>
+    simp only [List.map_cons, List.flatMap_cons, List.flatten_cons]
+    rw [ih c (hL c (by simp)), ihL (fun c' hc' => hL c' (List.mem_cons_of_mem _ hc'))]
+
+/-- `np.array(a.tolist())` has the data of `a` … -/
+theorem flatten_tolist [Inhabited α] (sh : List Nat) (d : List α) (h : d.length = prod sh) :
+    flatten sh.length (tolist sh d) = d := by
+  induction sh generalizing d with
+  | nil =>
+    match d, h with
+    | [x], _ => rfl
+  | cons n sh ih =>
+    have h' : d.length = n * prod sh := h
+    show List.flatMap (flatten sh.length) ((chunks (prod sh) n d).map (tolist sh)) = d
+    rw [flatten_map_tolist sh ih _ (chunks_mem_length _ _ _ h'), chunks_flatten, ← h']
+    exact List.take_length
+
+/-- … and, when no axis is empty, the shape of `a` -/
+theorem shapeOf_tolist [Inhabited α] (sh : List Nat) (d : List α) (h : d.length = prod sh)
+    (hpos : ∀ n ∈ sh, 0 < n) : shapeOf sh.length (tolist sh d) = sh := by
+  induction sh generalizing d with
+  | nil => rfl
+  | cons n sh ih =>
+    have h' : d.length = n * prod sh := h
+    have hn : 0 < n := hpos n (by simp)
+    show List.length ((chunks (prod sh) n d).map (tolist sh)) ::
+      (match (chunks (prod sh) n d).map (tolist sh) with
+        | [] => List.replicate sh.length 0 | x :: _ => shapeOf sh.length x) = n :: sh
+    obtain ⟨n', rfl⟩ : ∃ n', n = n' + 1 := ⟨n - 1, by omega⟩
+    simp only [chunks, List.map_cons, List.length_cons, List.length_map, chunks_length]
+    have hlen : prod sh ≤ d.length := by rw [h', Nat.succ_mul]; exact Nat.le_add_left _ _
+    rw [ih (d.take (prod sh)) (by simp [List.length_take, hlen]) (fun m hm => hpos m (List.mem_cons_of_mem _ hm))]
+
+/-- **JSON round trip, one entry**: a well-formed array of any rank (and a flag) comes back unchanged -/
+theorem json_roundtrip_field [Inhabited α] (f : Field α) (h : f.wf) : decodeField (encodeField f) = f := by
+  cases f with
+  | flag b => rfl
+  | array sh d =>
+    obtain ⟨h1, h2⟩ := h
+    simp only [encodeField, decodeField, flatten_tolist sh d h1, shapeOf_tolist sh d h1 h2]
+
+/-- **JSON round trip**: `fromJson (toJson d) = d` for every data dictionary of well-formed entries -/
+theorem json_roundtrip [Inhabited α] (d : DataDict α) (h : ∀ e ∈ d, e.2.wf) : fromJson (toJson d) = d := by
+  unfold fromJson toJson
+  rw [List.map_map]
+  conv => rhs; rw [← List.map_id d]
+  apply List.map_congr_left
+  intro e he
+  obtain ⟨k, f⟩ := e
+  simp only [Function.comp, id]
+  rw [json_roundtrip_field f (h _ he)]
+
+/-- the hypothesis "no empty axis" is needed: an array of shape (0, 3) comes back with shape (0,) -/
+example : decodeField (encodeField (Field.array [0, 3] ([] : List Nat))) = Field.array [0] [] := by
+  simp [encodeField, decodeField, tolist, chunks, shapeOf, flatten]
+
+/-! ### non-vacuity -/
+
+/-- a state meeting the hypotheses of `precip_roundtrip`, and the theorem applied to it -/
+example : ∃ s' : State Nat, load (precipSpec ["AL3ZR"]) (save (precipSpec ["AL3ZR"]) (fun _ => .arr [2] [1, 2]))
+    (fun _ => .none) = .ok s' ∧ s' "PBM.PSD@AL3ZR" = .arr [2] [1, 2] := by
+  obtain ⟨s', h1, h2⟩ := precip_roundtrip (α := Nat) ["AL3ZR"] (by simp) (fun _ => .arr [2] [1, 2]) (fun _ => .none)
+    (fun _ _ => rfl)
+  exact ⟨s', h1, h2 _ (by decide)⟩
+
+/-- recording off satisfies the hypotheses of `diff_roundtrip_any_recording` -/
+example : ∃ s' : State Nat, load diffSpec (save diffSpec recordOff) (fun _ => .arr [1] [0]) = .ok s' ∧
+    s' "_recordedX" = .none := by
+  obtain ⟨s', h1, h2⟩ := diff_roundtrip_any_recording recordOff (fun _ => .arr [1] [0]) (by decide) (by decide)
+  refine ⟨s', h1, ?_⟩
+  rw [h2 "_recordedX" (by decide)]
+  decide
+
+example : (Field.array [2, 3] [1, 2, 3, 4, 5, 6] : Field Nat).wf := by
+  refine ⟨rfl, ?_⟩
+  decide
+
 end KawinV.Props.C20
